@@ -88,12 +88,53 @@ where
     pub budget: usize,
     /// number of successful `read_word` calls
     pub reads: usize,
+    /// index (in words) of `words[0]` in the underlying stream: the ghost data is
+    /// a window of a longer stream, so that positions are symbolic without a
+    /// symbolic array offset
+    pub base: u64,
 }
 
 impl<W: VW, const CAP: usize> Oracle<W, CAP>
 where
     u64: CastableInto<W>,
 {
+    /// A fully symbolic backend: symbolic words, logical length, cursor and
+    /// kind of end; `budget` reads allowed.
+    #[cfg(kani)]
+    pub fn any(budget: usize) -> Self {
+        let len: usize = kani::any();
+        let pos: usize = kani::any();
+        kani::assume(len <= CAP);
+        let zero_ext: bool = kani::any();
+        // a strict backend never has its cursor beyond the end
+        kani::assume(if zero_ext { pos <= CAP + 2 } else { pos <= len });
+        Self { words: W::any_array::<CAP>(), len, pos, zero_ext, budget, reads: 0, base: 0 }
+    }
+
+    /// As `any`, but the cursor is within the first `max_pos` words of the
+    /// window and the window starts at a symbolic word offset `base`.
+    #[cfg(kani)]
+    pub fn any_near(budget: usize, max_pos: usize) -> Self {
+        let mut o = Self::any(budget);
+        kani::assume(o.pos <= max_pos);
+        let base: u64 = kani::any();
+        kani::assume(base <= 1 << 40);
+        o.base = base;
+        o
+    }
+
+    /// Stream bit `i` of the data in canonical layout (zero beyond the end).
+    #[inline(always)]
+    pub fn stream_bit(&self, le: bool, i: usize) -> bool {
+        crate::layout::image_bit(le, self.word_at(i / W::NBITS), i % W::NBITS)
+    }
+
+    /// Number of data bits (strict end), meaningless when zero-extended.
+    #[inline(always)]
+    pub fn data_bits(&self) -> usize {
+        self.len * W::NBITS
+    }
+
     /// The word at index `i` of the (possibly zero-extended) data.
     #[inline(always)]
     pub fn word_at(&self, i: usize) -> W {
@@ -132,13 +173,119 @@ where
 {
     type Error = GhostErr;
     fn word_pos(&mut self) -> Result<u64, GhostErr> {
-        Ok(self.pos as u64)
+        Ok(self.base + self.pos as u64)
     }
     fn set_word_pos(&mut self, word_pos: u64) -> Result<(), GhostErr> {
-        if !self.zero_ext && word_pos > self.len as u64 {
+        if word_pos < self.base || (!self.zero_ext && word_pos - self.base > self.len as u64) {
             return Err(GhostErr::Seek);
         }
-        self.pos = word_pos as usize;
+        self.pos = (word_pos - self.base) as usize;
         Ok(())
+    }
+}
+
+// ---------------------------------------------------------------------------
+// Faulty std::io objects (C11): every call may transfer fewer bytes than
+// asked, report `Interrupted`, or fail — everything the std::io contracts allow.
+// ---------------------------------------------------------------------------
+
+/// A byte sink whose every `write` call returns a symbolic `Ok(k <= len)`,
+/// `Interrupted`, or a hard error. After `budget` calls it fails hard (this
+/// bounds retry loops by the observation window, not by the input).
+#[cfg(kani)]
+pub struct FaultyWrite<const CAP: usize> {
+    pub sink: [u8; CAP],
+    pub len: usize,
+    pub calls: usize,
+    pub budget: usize,
+    pub flushes: usize,
+    /// set when a call returned Ok(0) for a non-empty buffer
+    pub wrote_zero: bool,
+    /// number of calls that reported `Interrupted`
+    pub interrupts: usize,
+}
+
+#[cfg(kani)]
+impl<const CAP: usize> FaultyWrite<CAP> {
+    pub fn new(budget: usize) -> Self {
+        Self { sink: [0; CAP], len: 0, calls: 0, budget, flushes: 0, wrote_zero: false, interrupts: 0 }
+    }
+}
+
+#[cfg(kani)]
+impl<const CAP: usize> std::io::Write for FaultyWrite<CAP> {
+    fn write(&mut self, buf: &[u8]) -> std::io::Result<usize> {
+        if self.calls >= self.budget {
+            return Err(std::io::Error::from(std::io::ErrorKind::BrokenPipe));
+        }
+        self.calls += 1;
+        let choice: u8 = kani::any();
+        if choice == 0 {
+            self.interrupts += 1;
+            return Err(std::io::Error::from(std::io::ErrorKind::Interrupted));
+        }
+        if choice == 1 {
+            return Err(std::io::Error::from(std::io::ErrorKind::BrokenPipe));
+        }
+        let k: usize = kani::any();
+        kani::assume(k <= buf.len() && self.len + k <= CAP);
+        self.sink[self.len..self.len + k].copy_from_slice(&buf[..k]);
+        self.len += k;
+        if k == 0 && !buf.is_empty() {
+            self.wrote_zero = true;
+        }
+        Ok(k)
+    }
+    fn flush(&mut self) -> std::io::Result<()> {
+        self.flushes += 1;
+        Ok(())
+    }
+}
+
+/// A byte source with the same fault model. `Ok(0)` is returned only at the end
+/// of the data (the `std::io::Read` contract).
+#[cfg(kani)]
+pub struct FaultyRead<const CAP: usize> {
+    pub src: [u8; CAP],
+    pub len: usize,
+    pub pos: usize,
+    pub calls: usize,
+    pub budget: usize,
+    pub hard_error: bool,
+}
+
+#[cfg(kani)]
+impl<const CAP: usize> FaultyRead<CAP> {
+    pub fn any(budget: usize) -> Self {
+        let len: usize = kani::any();
+        kani::assume(len <= CAP);
+        Self { src: kani::any(), len, pos: 0, calls: 0, budget, hard_error: false }
+    }
+}
+
+#[cfg(kani)]
+impl<const CAP: usize> std::io::Read for FaultyRead<CAP> {
+    fn read(&mut self, buf: &mut [u8]) -> std::io::Result<usize> {
+        if self.calls >= self.budget {
+            self.hard_error = true;
+            return Err(std::io::Error::from(std::io::ErrorKind::BrokenPipe));
+        }
+        self.calls += 1;
+        let choice: u8 = kani::any();
+        if choice == 0 {
+            return Err(std::io::Error::from(std::io::ErrorKind::Interrupted));
+        }
+        if choice == 1 {
+            self.hard_error = true;
+            return Err(std::io::Error::from(std::io::ErrorKind::BrokenPipe));
+        }
+        let avail = self.len - self.pos;
+        let k: usize = kani::any();
+        kani::assume(k <= buf.len() && k <= avail);
+        // Ok(0) only at end of data or for an empty buffer
+        kani::assume(k > 0 || avail == 0 || buf.is_empty());
+        buf[..k].copy_from_slice(&self.src[self.pos..self.pos + k]);
+        self.pos += k;
+        Ok(k)
     }
 }
